@@ -46,6 +46,23 @@ def eq_struct(a, b):
     return bool(r)
 
 
+def close_struct(a, b, rtol):
+    """element-wise |a-b| <= rtol*(|a|+|b|) of two nested structures as SymBool / bool"""
+    if isinstance(a, (np.ndarray, list, tuple)) or isinstance(b, (np.ndarray, list, tuple)):
+        if not isinstance(a, (np.ndarray, list, tuple)) or not isinstance(b, (np.ndarray, list, tuple)):
+            return False
+        la, lb = list(a), list(b)
+        if len(la) != len(lb):
+            return False
+        return sym_and(*[close_struct(x, y, rtol) for x, y in zip(la, lb)])
+    if isinstance(a, (float, np.floating)) and isinstance(b, (float, np.floating)):
+        if math.isnan(a) or math.isnan(b) or math.isinf(a) or math.isinf(b):
+            return eq_struct(a, b)
+    if isinstance(a, (float, np.floating)) and not math.isfinite(a) or isinstance(b, (float, np.floating)) and not math.isfinite(b):
+        return eq_struct(a, b)
+    return abs(a - b) <= rtol * (abs(a) + abs(b))
+
+
 def mutated(func, old, new, count=1):
     """a copy of `func` whose source text has `old` replaced by `new` (must occur exactly `count` times)"""
     f = getattr(func, "__func__", func)
